@@ -439,6 +439,15 @@ class Interp:
                 break
         return count
 
+    async def op_SUBRUN(self, act, pc, d):
+        """a complete nested simulation (two plain activities, lasting d) is run from inside this activity"""
+        import usim as _usim
+
+        async def inner(span):
+            await (time + span)
+            await instant
+        _usim.run(inner(d), inner(0), start=1000)
+
     async def op_COLLECT(self, act, pc, names, scripts):
         """await collect(*activities); the i-th activity is named names[i]"""
         coros = [self.activity(n, sc) for n, sc in zip(names, scripts)]
